@@ -31,10 +31,61 @@ def projection(obs, A, norm):
     return sorted(targets(norm or []))
 
 
+PROBE_MAIN = """<?xml version="1.0"?>
+<xs:schema xmlns:xs="http://www.w3.org/2001/XMLSchema" xmlns:t="urn:ep:drawing" targetNamespace="urn:ep:drawing" elementFormDefault="qualified">
+  <xs:import namespace="urn:ep:shapes" schemaLocation="base.xsd"/>
+  <xs:complexType name="Shape"><xs:sequence><xs:element name="own" type="xs:string"/></xs:sequence></xs:complexType>
+  <xs:complexType name="Circle">
+    <xs:complexContent>
+      <xs:extension xmlns:q9="urn:ep:shapes" base="q9:Shape">
+        <xs:sequence><xs:element name="radius" type="xs:double"/></xs:sequence>
+      </xs:extension>
+    </xs:complexContent>
+  </xs:complexType>
+</xs:schema>
+"""
+PROBE_BASE = """<?xml version="1.0"?>
+<xs:schema xmlns:xs="http://www.w3.org/2001/XMLSchema" xmlns:s="urn:ep:shapes" targetNamespace="urn:ep:shapes" elementFormDefault="qualified">
+  <xs:complexType name="Shape"><xs:sequence><xs:element name="id" type="xs:string"/></xs:sequence></xs:complexType>
+</xs:schema>
+"""
+
+
+def extension_prefix_probe(c, cases):
+    """recorded finding, recognised by its input class only: a prefix that is declared on the `xs:extension` element itself (and nowhere
+    else in the file) is not in the prefix table when `base=` is resolved; the lookup then runs without a namespace and takes the first
+    type of that name — here the file's own `Shape` instead of `{urn:ep:shapes}Shape`. Any other outcome than the recorded one or the
+    right one is a violation."""
+    import os
+    from .common import sh, ZV
+    d = os.path.join(os.path.dirname(cases[0]["dir"]), "probe-extension-prefix", "in") if cases else None
+    fails = []
+    if d:
+        os.makedirs(d, exist_ok=True)
+        open(os.path.join(d, "shapes.xsd"), "w").write(PROBE_MAIN)
+        open(os.path.join(d, "base.xsd"), "w").write(PROBE_BASE)
+        out = os.path.join(os.path.dirname(d), "out.rs")
+        rc, o, e = sh([ZV, "gen", d, "shapes.xsd", out])
+        first = None
+        if o.strip().split("\n")[-1].startswith("ok"):
+            src = open(out).read()
+            i = src.find("pub struct Circle")
+            import re
+            m = re.search(r"pub (\w+):", src[i:]) if i >= 0 else None
+            first = m.group(1) if m else None
+        c.cov["extension_prefix_probe"] = {"first_member_of_Circle": first, "expected": "id"}
+        if first == "own" and "prefix-declared-only-on-extension-element" in c.known_classes():
+            c.known("prefix-declared-only-on-extension-element: <xs:extension xmlns:q9=\"urn:ep:shapes\" base=\"q9:Shape\">: Circle starts with the members of the file's own Shape (`own`), not of {urn:ep:shapes}Shape (`id`)")
+        elif first != "id":
+            case = {"dir": os.path.dirname(d), "in": d, "start": "shapes.xsd", "meta": {"features": "probe prefix declared on the extension element"}, "impl": o.strip()[-80:], "ref": None}
+            fails.append(("base-not-the-denoted-type", f"a derived type whose base QName uses a prefix declared on the extension element starts with member {first!r}; the denoted base's first member is 'id'", case))
+    return fails + st.refinement_coverage(c, cases)
+
+
 def run(tier, seed):
     return st.run_structural(
         "C09", tier, seed, "ZeepVerif.Props.C09", "ZeepVerif/Audit/C09.lean",
-        [("gencollide", 250, 6000), ("gen", 80, 2000), ("gentopo", 150, 3000)], oracle, projection, CHECKER, extra_props=[('ZeepVerif.Props.C09Read', 'ZeepVerif/Audit/C09Read.lean'), ('ZeepVerif.Props.C09All', 'ZeepVerif/Audit/C09All.lean'), ('ZeepVerif.Props.C09Denote', 'ZeepVerif/Audit/C09Denote.lean'), ('ZeepVerif.Props.C09Ref', 'ZeepVerif/Audit/C09Ref.lean')], extra=st.refinement_coverage,
+        [("gencollide", 250, 6000), ("gen", 80, 2000), ("gentopo", 150, 3000)], oracle, projection, CHECKER, extra_props=[('ZeepVerif.Props.C09Read', 'ZeepVerif/Audit/C09Read.lean'), ('ZeepVerif.Props.C09All', 'ZeepVerif/Audit/C09All.lean'), ('ZeepVerif.Props.C09Denote', 'ZeepVerif/Audit/C09Denote.lean'), ('ZeepVerif.Props.C09Ref', 'ZeepVerif/Audit/C09Ref.lean')], extra=extension_prefix_probe,
         note_assumptions=["the 'collide' profile draws all names from ten words (incl. int, date, long, boolean), so local names are reused across namespaces, "
                           "kinds (type, global element, local element, attribute) and files; every file binds its own namespace to the prefix tns",
                           "message parts are covered by C05's WSDL stream"],
